@@ -300,7 +300,7 @@ def cross_check(eng, ob, solver="z3-4.8.12", timeout_s=20):
 def freeze(ob):
     """picklable summary of a discharged obligation (z3 terms replaced by text)"""
     from pyvc.engine import Obligation
-    meta = {k: v for k, v in ob.meta.items() if isinstance(v, (str, int, float, bool, type(None)))}
+    meta = {k: v for k, v in ob.meta.items() if isinstance(v, (str, int, float, bool, type(None))) or (isinstance(v, (list, tuple)) and all(isinstance(x, str) for x in v))}
     o = Obligation(ob.oid, [None] * len(ob.hyps), str(ob.goal)[:300], ob.line, ob.reveal, ob.kind, ob.func, ob.use_axioms, ob.expect_refuted, meta)
     o.result, o.secs, o.backend, o.model, o.detail = ob.result, ob.secs, ob.backend, ob.model, ob.detail
     return o
